@@ -2,9 +2,11 @@ package c14
 
 import (
 	"fmt"
+	"sync"
 	"sync/atomic"
 	"time"
 
+	"github.com/plgd-dev/go-coap/v3/pkg/cache"
 	coapsync "github.com/plgd-dev/go-coap/v3/pkg/sync"
 
 	"verifharness/internal/rec"
@@ -144,9 +146,63 @@ func RunExcl(out string) {
 		wr.Put(aliasOne(fmt.Sprintf("ladall-%d", pre), pre))
 		wr.Put(aliasOne(fmt.Sprintf("copydata-%d", pre), pre))
 	}
+	for _, w := range []string{"cload", "clos", "sweep"} {
+		wr.Put(flipOne(w, 300000))
+	}
 	for _, f := range []string{"losf", "losf-create", "storef", "replacef", "deletef", "ladf"} { // under the write lock: everybody waits
 		for _, w := range append([]string{"load"}, writers...) {
 			wr.Put(exclChecked(f, w))
 		}
 	}
+}
+
+// flipOne: "the expiry sweep never removes or replaces an entry that has not expired" while the owner of a live element moves
+// its (exported, atomic) ValidUntil between two values that both mean "not expired" - an hour ahead and the zero time
+// (never expires): for the sequential cache nothing happens at all, so a concurrent look-up finds the element, a concurrent
+// store-if-absent is refused with it, and the sweep leaves it alone and runs no expiry callback.
+func flipOne(w string, rounds int) map[string]any {
+	c := cache.NewCache[int, int]()
+	future := time.Now().Add(time.Hour)
+	var expired atomic.Int64
+	e := cache.NewElement(42, future, func(int) { expired.Add(1) })
+	c.LoadOrStore(1, e)
+	stop := make(chan struct{})
+	var wg sync.WaitGroup
+	wg.Add(1)
+	go func() {
+		defer wg.Done()
+		for {
+			select {
+			case <-stop:
+				return
+			default:
+			}
+			e.ValidUntil.Store(time.Time{})
+			e.ValidUntil.Store(future)
+		}
+	}()
+	lost := 0
+	for r := 0; r < rounds; r++ {
+		switch w {
+		case "cload":
+			if c.Load(1) != e {
+				lost++
+			}
+		case "clos":
+			if a, loaded := c.LoadOrStore(1, cache.NewElement(43, future, nil)); !loaded || a != e {
+				lost++
+				c.Store(1, e)
+			}
+		case "sweep":
+			c.CheckExpirations(time.Now())
+			if a, ok := c.Map.Load(1); !ok || a != e || expired.Load() != 0 {
+				lost++
+				expired.Store(0)
+				c.Store(1, e)
+			}
+		}
+	}
+	close(stop)
+	wg.Wait()
+	return map[string]any{"f": "cache-flip", "w": w, "entered": true, "during": false, "wdone": true, "rounds": rounds, "lost": lost}
 }
